@@ -221,7 +221,7 @@ class Run:
                 spread.append(g.pop())
                 if g: nxt.append(g)
             order = nxt
-        chosen = (fixed + spread)[:K * (8 if cfg.get('accept') else 1)]
+        chosen = (fixed + spread)[:K * 8]
         work = os.path.join(os.path.dirname(S.art['dir']), 'kani', self.prop.ID + '-' + cfg['template'])
         os.makedirs(work, exist_ok=True)
         ws = []; t0 = time.time()
@@ -231,9 +231,11 @@ class Run:
                 summ, files = B.emit(S, cfg['template'], a, work)
             except B.EmitError as e:
                 self.unsupported.append({'unsupported': 'Engine B emit: %s' % e}); continue
+            if summ and isinstance(summ[0], list): summ = summ[-1]      # product template: the files on disk are the last build's
             if summ[0] != 'ok' or 'm.rs' not in files:
                 self.mismatches.append({'slice': 'engine-b', 'args': a, 'interpreted': 'ok', 'native': summ}); continue
             if cfg.get('accept') and not cfg['accept'](summ): continue
+            if not B.externs_realisable(summ): continue      # an extern type whose size is not a multiple of its alignment cannot be supplied
             if len(ws) >= K: break
             w = B.Witness(i, cfg['template'], a, summ, files['m.rs'])
             if cfg.get('abi'):
@@ -296,7 +298,7 @@ class Run:
                 self.unsupported.append(r); continue
             self.leaves += 1; self.forks += r['forks']
             info['outcomes'][r['outcome']] = info['outcomes'].get(r['outcome'], 0) + 1
-            if r['outcome'] == 'ok' and r.get('witness') and r['witness'][0] == 8 and all(q['status'] == 'unsat' and not q['known'] for q in r['queries']):
+            if r['outcome'] in ('ok', 'ok/ok') and r.get('witness') and r['witness'][0] == 8 and all(q['status'] == 'unsat' and not q['known'] for q in r['queries']):
                 self.ok_witnesses.setdefault(sl.template, []).append(r['witness'])
             # differential validation of the leaf's witness on the native build
             if r['witness'] is None:
